@@ -283,6 +283,8 @@ def gen_world(rng, cfg_name, size=3, prop_version=None, empty=False):
 
     # --- visleafs / nodes
     def ivec(lo, hi):
+        if chaos:          # the Chaos layout stores node / leaf bounds as floats
+            return fv()
         return Vec(float(rng.randrange(lo, hi)), float(rng.randrange(lo, hi)), float(rng.randrange(lo, hi)))
     lo, hi = (0, 65536) if vit else (-32768, 32768)
     w.visleafs = []
